@@ -138,6 +138,34 @@ def preprocess_orient_clause(cl, rng, n, replay):
                 return
 
 
+def preprocess_list_clause(cl, rng, n, replay):
+    """one motion polarised along a true azimuth, recorded by several sensors deployed at different angles and preprocessed in one call: every recording comes back on the
+    target orientation, whatever the deployment of the recordings before it in the list (the first one already on the target included)"""
+    import hvsrpy
+    for j in range(n):
+        N = 200
+        alpha = float(rng.uniform(0, 360))
+        m = rng.normal(0, 1, N)
+        Nn, E = m * np.cos(np.radians(alpha)), m * np.sin(np.radians(alpha))
+        target = [0., 40., 360., 25.][j % 4]
+        others = [float(x) for x in rng.choice([65., 130., 250., 90., 310.], size=int(rng.integers(1, 3)), replace=False)]
+        thetas = [[target % 360] + others, others + [target % 360], [others[0], target % 360] + others[1:]][(j // 4) % 3]      # the sensor already on the target first, last, in between
+        for method in ("hvsr", "psd"):
+            recs = []
+            for theta in thetas:
+                th = np.radians(theta)
+                recs.append(rp.mk_record(Nn * np.cos(th) + E * np.sin(th), -Nn * np.sin(th) + E * np.cos(th), rng.normal(0, 1, N), 0.01, degrees_from_north=theta))
+            cls = hvsrpy.HvsrPreProcessingSettings if method == "hvsr" else hvsrpy.PsdPreProcessingSettings
+            out = hvsrpy.preprocess(recs, cls(orient_to_degrees_from_north=target, window_length_in_seconds=None, detrend=None))
+            cl.case((j, method, tuple(thetas), target))
+            want_ns = Nn * np.cos(np.radians(target)) + E * np.sin(np.radians(target))
+            for k, (o, theta) in enumerate(zip(out, thetas)):
+                if not close(o.ns.amplitude, want_ns, 1e-9, 1e-9) or not (abs((o.degrees_from_north - target) % 360) <= 1e-9 or abs((o.degrees_from_north - target) % 360 - 360) <= 1e-9):
+                    cl.fail(f"hvsrpy.preprocessing.{method}_preprocess", f"recording {k} of {len(thetas)} (deployed at {theta}, list deployed at {thetas}) was not oriented to {target}",
+                            signature="preprocess:orient-list", target=target, thetas=thetas)
+                    return
+
+
 def derived_orientation_clause(cl, rng, n, replay):
     """windows, copies and reloaded recordings carry the orientation of the recording they come from: re-orienting them afterwards lands
     polarised motion on its true azimuth"""
@@ -188,6 +216,8 @@ CLAUSES = [
      "windows of 80-200 samples, 5 azimuths, 5 azimuth sets, 5 percentiles, random orientation", "hvsrpy.processing.process", (10, 200), processing_clause),
     ("bounded:preprocessing orients every record (incl. target 0) before anything else", "bounded", "4 deployment angles x 6 targets x 2 preprocessing methods",
      "hvsrpy.preprocessing.hvsr_preprocess", (24, 240), preprocess_orient_clause),
+    ("bounded:several sensors with different deployments preprocessed in one call all come back on the target (the first already on it included)", "bounded",
+     "2-3 recordings, 4 targets, 3 list arrangements, 2 preprocessing methods", "hvsrpy.preprocessing.hvsr_preprocess", (12, 120), preprocess_list_clause),
     ("bounded:windows, copies and reloaded recordings keep the orientation of their source (re-orienting them recovers polarised motion)", "bounded",
      "5 deployment angles x split / copy / save-load / preprocess without orienting", "hvsrpy.seismic_recording_3c.SeismicRecording3C.split", (24, 240), derived_orientation_clause),
 ]
